@@ -164,6 +164,17 @@ def install(ex):
         return v if isinstance(v, Agg) and v.name == '~vec' else None
     ex.stub(r'Vec::<.*>::len$', lambda ex_, st, c, A: (lambda v: None if v is None else ex_.const_int(len(v.fields), 'usize'))(vec(st, A[0])), 'concrete Vec: len')
 
+    ex.stub(r'Vec::<.*>::is_empty$', lambda ex_, st, c, A: (lambda v: None if v is None else BoolV(z3.BoolVal(not v.fields)))(vec(st, A[0])), 'concrete Vec: is_empty')
+
+    def v_extend(ex_, st, c, A):
+        v = vec(st, A[0])
+        o = res(ex_, st, A[1])
+        if v is None or not (isinstance(o, Agg) and o.name in ('~vec', '~vec_iter')):
+            return None
+        r = base_ref(ex_, st, A[0])
+        return [([], UNIT, upd(r, Agg('struct', '~vec', None, list(v.fields) + list(o.fields))))]
+    ex.stub(r'<Vec<.*> as Extend<.*>>::extend::<', v_extend, 'concrete Vec: extend with a concrete Vec / iterator')
+
     def v_index(ex_, st, c, A):
         v = vec(st, A[0])
         if v is None:
@@ -336,6 +347,50 @@ def install(ex):
     ex.stub(r' as Iterator>::map::<', si_map, 'iterator with symbolic membership: map(Clone::clone)')
     ex.stub(r' as Iterator>::cloned::<', lambda ex_, st, c, A: (lambda it: None if it is None else Agg('struct', '~sym_iter', None, [Agg('tuple', None, None, [e.fields[0], res(ex_, st, e.fields[1])]) for e in it.fields]))(si(st, A[0])),
             'iterator with symbolic membership: cloned')
+
+    def si_any_all(ex_, st, c, A):
+        it = si(st, A[0])
+        if it is None:
+            return None
+        op = re.search(r' as Iterator>::(any|all)::<', c).group(1)
+        clo = A[1]
+        items = [(e.fields[0].t, e.fields[1]) for e in it.fields]
+        if isinstance(A[0], Ref):
+            r = si_ref(ex_, st, A[0])
+            ex_.write(st, r.fid, r.place, Agg('struct', '~sym_iter', None, []))      # consumed (a short-circuit leaves a suffix nobody may rely on)
+
+        def go(st2, rest, acc):
+            if not rest:
+                return BoolV(z3.simplify(z3.Or(acc) if op == 'any' else z3.And(acc)) if acc else z3.BoolVal(op == 'all'))
+            cnd, val = rest[0]
+
+            def then(st3, rv):
+                if not isinstance(rv, BoolV):
+                    raise NotEncoded(f'{op} closure returned {rv!r}')
+                return go(st3, rest[1:], acc + [z3.And(cnd, rv.t) if op == 'any' else z3.Implies(cnd, rv.t)])
+            return ex_.call_closure(st2, clo, [val], then=then)
+        return go(st, items, [])
+    ex.stub(r' as Iterator>::(any|all)::<', si_any_all, 'iterator with symbolic membership: any / all = disjunction / conjunction over the members present (pure closure)')
+
+    def si_filter(ex_, st, c, A):
+        it = si(st, A[0])
+        if it is None:
+            return None
+        clo = A[1]
+        items = [(e.fields[0].t, e.fields[1]) for e in it.fields]
+
+        def go(st2, rest, acc):
+            if not rest:
+                return sym_iter(acc)
+            cnd, val = rest[0]
+
+            def then(st3, rv):
+                if not isinstance(rv, BoolV):
+                    raise NotEncoded(f'filter closure returned {rv!r}')
+                return go(st3, rest[1:], acc + [(z3.simplify(z3.And(cnd, rv.t)), val)])
+            return ex_.call_closure(st2, clo, [ex_.new_cell(st2, val, 'filter_item')], then=then)
+        return go(st, items, [])
+    ex.stub(r' as Iterator>::filter::<', si_filter, 'iterator with symbolic membership: filter (pure closure) narrows the membership conditions')
 
     def si_contains(ex_, st, c, A):
         it = si(st, A[0])
